@@ -3,7 +3,7 @@ From Coq Require Import Strings.String Strings.Byte.
 From Coq Require Import List Arith NArith ZArith Bool Lia Permutation.
 From Verif Require Import Base.Bytes Base.Outcome Model.Quote Model.Args Model.Numfmt
   Model.StatusQuery Model.Xfer Model.RawProto Model.Wire
-  Proofs.XferProofs Proofs.RawProofs Proofs.WireProofs Proofs.WireInv.
+  Proofs.XferProofs Proofs.RawProofs Proofs.WireProofs Proofs.WireOnce Proofs.WireInv.
 Import ListNotations.
 Local Open Scope N_scope.
 
@@ -54,10 +54,32 @@ Proof.
     unfold seen_ok in H. destruct (h_push h); [exact H|]. destruct H as (c & A & ->). exists c. auto.
 Qed.
 
+(* a call whose handler answered with an error status is not completed OK *)
+Lemma link_refused cfg s es eo ws wo : link2 cfg s es eo ws wo ->
+  forall c stt b mt, In (c, RReply stt b mt) (e_done es) -> st_code stt = 0%Z ->
+  status_ok (snd (cf_handler cfg (other s) (c_method c) (c_args c) (c_meta c))) = true.
+Proof.
+  intros Hl c stt b mt Hin Hok.
+  destruct (link_result_own cfg s es eo ws wo Hl c stt b mt Hin) as (_ & B & _).
+  destruct (cf_handler cfg (other s) (c_method c) (c_args c) (c_meta c)) as [[rb rm] so].
+  cbn [snd]. unfold reply_msg, res_of in B. destruct (status_ok so) eqn:E; [reflexivity|].
+  cbn in B. inversion B; subst. unfold status_ok in E. apply Z.eqb_neq in E. contradiction.
+Qed.
+
+Lemma reach_reach_any' cfg st : reach cfg st -> reach_any cfg st.
+Proof. induction 1; [constructor | econstructor; eauto]. Qed.
+Lemma reach1_reach_any cfg st : reach1 cfg st -> reach_any cfg st.
+Proof. induction 1; [constructor | econstructor; eauto]. Qed.
+
+Definition UU (st : state) : Prop := forall s, unlocking_pending (ep_of st s).
+Lemma UU_init : UU init.
+Proof. intros s c H. destruct s; destruct H. Qed.
+
 Section Guarded.
   Variable cfg : config.
   Hypothesis Hlock : cf_lock cfg = true.
   Hypothesis Hinv : forall g, In g (cf_reg cfg) -> inverts g.
+  Hypothesis Hcallmu : cf_callmu cfg = true.
 
   Lemma Inv_init : Inv cfg init.
   Proof.
@@ -74,18 +96,46 @@ Section Guarded.
     exact (conj (conj W (L SA)) (conj W (L SB))).
   Qed.
 
-  Theorem reach_Inv st : reach cfg st -> Inv cfg st.
+  Lemma Inv_pend st : Inv cfg st -> forall s, pend_ok (ep_of st s).
+  Proof. intros HI s. destruct (Inv_at cfg st s HI) as (ws & wo & ((_ & Hl) & _)). apply Hl. Qed.
+
+  Theorem reach_InvU st : reach cfg st -> Inv cfg st /\ UU st.
   Proof.
-    induction 1 as [|st ev st' Hr IH Hs Hsane'].
-    - apply Inv_init.
+    induction 1 as [|st ev st' Hr [HI HU] Hs Hsane'].
+    - split; [apply Inv_init | apply UU_init].
     - pose proof (reach_sane _ _ Hr) as Hsane.
-      destruct ev.
-      + eapply pres_call; eauto.
-      + eapply pres_push; eauto.
-      + eapply pres_lock; eauto.
-      + eapply pres_write; eauto.
-      + eapply pres_unlock; eauto.
-      + eapply pres_recv; eauto.
+      pose proof (reach_any_once cfg st (reach_reach_any' _ _ Hr)) as Honce.
+      split.
+      + destruct ev.
+        * eapply pres_call; eauto.
+        * eapply pres_push; eauto.
+        * eapply pres_lock; eauto.
+        * eapply pres_write; eauto.
+        * eapply pres_unlock; eauto.
+        * eapply pres_recv; eauto.
+      + exact (presU cfg Hcallmu st ev st' Hsane (Inv_pend st HI) HU Hs).
+  Qed.
+
+  Theorem reach_Inv st : reach cfg st -> Inv cfg st.
+  Proof. intros H. apply reach_InvU. exact H. Qed.
+
+  (* ---- the status a reply gave a call is never overwritten by the returning caller ---- *)
+  Theorem status_kept_lemma st : reach cfg st -> forall s k st',
+    step cfg st (EUnlock s k) = Some st' -> e_done (ep_of st' s) = e_done (ep_of st s).
+  Proof.
+    intros Hr s k st' Hstep. cbn [step] in Hstep.
+    destruct (take_nth k (e_unlocking (ep_of st s))) as [[oc rest]|] eqn:Et; [|discriminate].
+    rewrite (unlock_done_same (ep_of st s) k oc rest (proj2 (reach_InvU st Hr) s)
+               (reach_any_once cfg st (reach_reach_any' _ _ Hr) s) Et) in Hstep.
+    inversion Hstep; subst st'. rewrite ep_with_ep_same. reflexivity.
+  Qed.
+
+  Theorem refused_never_ok_lemma st : reach cfg st -> forall s c stt b mt,
+    In (c, RReply stt b mt) (e_done (ep_of st s)) -> st_code stt = 0%Z ->
+    status_ok (snd (cf_handler cfg (other s) (c_method c) (c_args c) (c_meta c))) = true.
+  Proof.
+    intros Hr s. destruct (Inv_at cfg st s (reach_Inv st Hr)) as (ws & wo & ((_ & Hl) & _)).
+    exact (link_refused cfg s _ _ ws wo Hl).
   Qed.
 
   (* ---- frames_atomic_on_wire ---- *)
@@ -236,6 +286,7 @@ Section SingleWrite.
   Variable cfg : config.
   Hypothesis Hnolock : cf_lock cfg = false.
   Hypothesis Hinv : forall g, In g (cf_reg cfg) -> inverts g.
+  Hypothesis Hcallmu : cf_callmu cfg = true.
 
   Lemma Inv1_init : Inv1 cfg init.
   Proof.
@@ -251,12 +302,24 @@ Section SingleWrite.
     exact (conj (conj W (L SA)) (conj W (L SB))).
   Qed.
 
-  Theorem reach1_Inv1 st : reach1 cfg st -> Inv1 cfg st.
+  Lemma Inv1_pend st : Inv1 cfg st -> forall s, pend_ok (ep_of st s).
   Proof.
-    induction 1 as [|st ev st' Hr IH Hs Hstep Hsane'].
-    - apply Inv1_init.
-    - exact (pres1_step cfg Hnolock Hinv st ev st' Hs (reach1_sane _ _ Hr) IH Hstep).
+    intros HI s. destruct (InvW_at cfg (wire1 cfg) st s HI) as (ws & wo & ((_ & Hl) & _)). apply Hl.
   Qed.
+
+  Theorem reach1_Inv1U st : reach1 cfg st -> Inv1 cfg st /\ UU st.
+  Proof.
+    induction 1 as [|st ev st' Hr [HI HU] Hs Hstep Hsane'].
+    - split; [apply Inv1_init | apply UU_init].
+    - pose proof (reach1_sane _ _ Hr) as Hsane.
+      pose proof (reach_any_once cfg st (reach1_reach_any _ _ Hr)) as Honce.
+      split.
+      + exact (pres1_step cfg Hnolock Hinv st ev st' Hs Hsane HI HU Honce Hstep).
+      + exact (presU cfg Hcallmu st ev st' Hsane (Inv1_pend st HI) HU Hstep).
+  Qed.
+
+  Theorem reach1_Inv1 st : reach1 cfg st -> Inv1 cfg st.
+  Proof. intros H. apply reach1_Inv1U. exact H. Qed.
 
   (* the queue is always whole frames: a partial frame is never on the wire *)
   Theorem single_write_whole_lemma st : reach1 cfg st -> forall s,
